@@ -560,6 +560,64 @@ func execRrun(a []string) string {
 	})
 }
 
+// rrun2 <k> <i>: canrunner.Run with k event messages; every request is accepted and reaches its write while the peer is
+// not reading yet (net.Pipe writes block), so all k transmissions are in flight together; then the peer reads.
+func execRrun2(a []string) string {
+	return withTimeout(10*time.Second, func() string {
+		k := int(U(a[0]))
+		c1, c2 := net.Pipe()
+		n := &fakeNode{rx: map[uint32]*fakeMsg{}, conn: c1}
+		for i := 0; i < k; i++ {
+			n.tx = append(n.tx, &fakeMsg{n: n, desc: &descriptor.Message{Name: fmt.Sprintf("Tx%d", i), ID: uint32(16 + i), SendType: descriptor.SendTypeEvent},
+				state: uint64(i+1) * 0x0101010101010101, wake: make(chan struct{}, 1), event: make(chan struct{}), hookLocks: true})
+		}
+		ctx, cancel := context.WithCancel(context.Background())
+		defer cancel()
+		done := make(chan error, 1)
+		go func() { done <- canrunner.Run(ctx, n) }()
+		for i, m := range n.tx {
+			rctx, rc := context.WithTimeout(context.Background(), 2*time.Second)
+			terr := (&txReq{m}).Transmit(rctx)
+			rc()
+			if terr != nil {
+				return "request-not-accepted"
+			}
+			if !waitFor(func() bool { return n.count("acc:Frame") >= i+1 }) {
+				return "TIMEOUT-no-transmission"
+			}
+			time.Sleep(3 * time.Millisecond) // let it reach the blocking write
+		}
+		var got []string
+		rx := socketcan.NewReceiver(c2)
+		for i := 0; i < k; i++ {
+			_ = c2.SetReadDeadline(time.Now().Add(2 * time.Second))
+			if !rx.Receive() {
+				break
+			}
+			f := rx.Frame()
+			got = append(got, fmt.Sprintf("%d:%s", f.ID, HexS(f.Data[:])))
+		}
+		sortStrings(got)
+		cancel()
+		var result error
+		select {
+		case result = <-done:
+		case <-time.After(4 * time.Second):
+			return "TIMEOUT-run-did-not-return"
+		}
+		c2.Close()
+		return fmt.Sprintf("%s %s frames=%s", errClass(result), viols(n), strings.Join(got, ","))
+	})
+}
+
+func sortStrings(x []string) {
+	for i := 1; i < len(x); i++ {
+		for j := i; j > 0 && x[j] < x[j-1]; j-- {
+			x[j], x[j-1] = x[j-1], x[j]
+		}
+	}
+}
+
 type txReq struct{ m *fakeMsg }
 
 func (t *txReq) Transmit(ctx context.Context) error {
@@ -655,6 +713,11 @@ func genC14(g *G) {
 	for i := 0; i < g.N(2, 20); i++ {
 		g.Emit("rcyc %d", i)
 	}
+	for k := 1; k <= 4; k++ {
+		for i := 0; i < g.N(1, 8); i++ {
+			g.Emit("rrun2 %d %d", k, i)
+		}
+	}
 	for _, mode := range []string{"cancel", "hookerr", "hookerr-closed"} {
 		for i := 0; i < g.N(2, 20); i++ {
 			g.Emit("rrun %s %d", mode, i)
@@ -669,4 +732,5 @@ func init() {
 	RegExec("rtx", execRtx)
 	RegExec("rcyc", execRcyc)
 	RegExec("rrun", execRrun)
+	RegExec("rrun2", execRrun2)
 }
